@@ -69,6 +69,10 @@ func (c *Calcium) doReallocOnNode(ctx context.Context, node *types.Node, workloa
 				logger.Errorf(ctx, err, "failed to rollback workload %+v, resource args %+v, engine args %+v", workload.ID, litter.Sdump(resources), litter.Sdump(engineParams))
 				// don't return here, so the node resource can still be fixed
 			}
+			if failureByCond {
+				// it was the update of the workload meta that failed: the stored meta is still the original one
+				return nil
+			}
 			return c.store.UpdateWorkload(ctx, &originWorkload)
 		},
 		c.config.GlobalTimeout,
